@@ -10,6 +10,7 @@ import (
 	"berty.tech/go-ipfs-log/entry"
 	"berty.tech/go-ipfs-log/iface"
 	"github.com/ipfs/go-cid"
+	"github.com/libp2p/go-libp2p/core/crypto"
 )
 
 const (
@@ -30,6 +31,8 @@ const (
 	tClockIDEmpty
 	tNextCodec
 	tRefsCodec
+	tKeyFlip
+	tKeyResize
 	nTamper
 )
 
@@ -43,7 +46,7 @@ const (
 )
 
 var tamperNames = [...]string{"payload-byte", "log-id", "next-add", "next-drop", "next-order", "refs-add", "refs-drop", "refs-order",
-	"version", "clock-id", "clock-time", "key-substituted", "sig-substituted", "sig-bitflip", "clock-id-emptied", "next-link-codec", "refs-link-codec", "unsigned", "key-removed", "foreign-log-id"}
+	"version", "clock-id", "clock-time", "key-substituted", "sig-substituted", "sig-bitflip", "clock-id-emptied", "next-link-codec", "refs-link-codec", "key-bitflip", "key-resized", "unsigned", "key-removed", "foreign-log-id"}
 
 type tamperResult struct {
 	e         iface.IPFSLogEntry
@@ -185,6 +188,35 @@ func tamper(r *Run, e iface.IPFSLogEntry, kind int, other iface.IPFSLogEntry, ot
 		}
 		lst[i] = cid.NewCidV1(codec, lst[i].Hash())
 		res.applied = true
+	case tKeyFlip:
+		if len(c.Key) == 0 {
+			return res
+		}
+		i := r.Choose("t-pos", len(c.Key))
+		before, errB := crypto.UnmarshalSecp256k1PublicKey(c.Key)
+		c.Key[i] ^= 1 << uint(r.Choose("t-bit", 8))
+		// secp256k1 keys have several encodings (04.. uncompressed, 06../07.. hybrid): a flip that yields
+		// another encoding of the same key is no substitution of a different key, and nothing is claimed
+		if after, errA := crypto.UnmarshalSecp256k1PublicKey(c.Key); errB == nil && errA == nil && before.Equals(after) {
+			r.Probe("key-reencoded-same-key")
+			return res
+		}
+		res.applied = true
+		res.detail = fmt.Sprintf("key bit flipped at byte %d of %d", i, len(c.Key))
+	case tKeyResize:
+		if len(c.Key) < 34 {
+			return res
+		}
+		switch r.Choose("t-resize", 3) {
+		case 0:
+			c.Key = c.Key[:33]
+		case 1:
+			c.Key = append(c.Key, byte(r.Choose("t-byte", 256)))
+		default:
+			c.Key = c.Key[:len(c.Key)-1]
+		}
+		res.applied = true
+		res.detail = fmt.Sprintf("key resized to %d bytes", len(c.Key))
 	case tClockIDEmpty:
 		if len(c.Clock.ID) == 0 {
 			return res
